@@ -930,9 +930,30 @@ theorem src_hub_methods_are_model :
   decide
 
 open ALV.C03.Src in
+/-- `StreamTeeHub.__init__(data, n)`: `super().__init__(data)` / `iter_self = super().__iter__()` /
+    `self._iters = list(it.tee(iter_self, n))` build what the model's `.thub` branch builds: the iterator of
+    `Stream(data)` (`mkSrc`: an existing Stream is moved, an existing hub gives a use; its error is the error of the
+    call), one `itertools.tee` over it, `n` copies of its output stored in the new hub -/
+theorem src_hub_init_is_model (st : St α) (s : ALV.C03.Src α) (n : Nat) :
+    hubInitP ALV.Gen.C03.hubInit st s n =
+      match mkSrc st s with
+      | .error e => some (st, .err e)
+      | .ok (st', it) =>
+        some (⟨(teeOf st'.heap it).1, st'.pool ++ [.hub (List.replicate n (teeOf st'.heap it).2)]⟩, .new st'.pool.length) :=
+  hubInitP_gen st s n
+
+open ALV.C03.Src in
+/-- `thub(data, n)`: `StreamTeeHub(data, n) if isinstance(data, Iterable) else data` is the `.thub` branch of the
+    model, for every state, argument and number of copies (a non-iterable comes back as it is and nothing is built) -/
+theorem src_thub_is_model (f : Nat) (st : St α) (s : ALV.C03.Src α) (n : Nat) :
+    thubP ALV.Gen.C03.progs st s n = step f st (.thub s n) :=
+  stepP_thub f st s n
+
+open ALV.C03.Src in
 /-- **the model's step function is the interpretation of the regenerated programs**, for every fuel, state and
-    operation (take / peek / skip / limit / append / map / filter / copy on Streams and StreamTeeHubs come from the
-    programs; the constructor, `next(iter(x))`, `list(x)`, `thub`, `tee` are the hand-written branches on both sides) -/
+    operation (take / peek / skip / limit / append / map / filter / copy on Streams and StreamTeeHubs, `thub` and
+    `StreamTeeHub.__init__` come from the programs; the constructor, `next(iter(x))`, `list(x)`, `tee` are the
+    hand-written branches on both sides) -/
 theorem src_step_is_model : @stepP α ALV.Gen.C03.progs = step := by
   funext f st op; exact stepP_gen f st op
 
